@@ -8,6 +8,7 @@ import (
 	extv1 "k8s.io/apiextensions-apiserver/pkg/apis/apiextensions/v1"
 	metav1 "k8s.io/apimachinery/pkg/apis/meta/v1"
 	"k8s.io/apimachinery/pkg/apis/meta/v1/unstructured"
+	"k8s.io/apimachinery/pkg/runtime"
 	"k8s.io/apimachinery/pkg/runtime/schema"
 
 	xpv1 "github.com/crossplane/crossplane-runtime/apis/common/v1"
@@ -104,6 +105,28 @@ func runRBAC(s *sim.Sim, res *runner.Result) {
 		acts := w.ReconcileActions()
 		if proc.Dead {
 			acts = append(acts, sim.Action{Key: "restart rbac-manager", Weight: 40, Run: func() { s.Restart(proc); newProcess() }})
+		}
+		for _, n := range names {
+			n := n
+			k := simapi.ObjKey{Group: "rbac.authorization.k8s.io", Kind: "ClusterRole", Name: n}
+			if _, placed := g.placed[k]; placed || w.Store.Peek(k) == nil {
+				continue
+			}
+			// somebody edits a derived role (the manager will want to put it right) ...
+			acts = append(acts, sim.Action{Key: "somebody edits the rules of " + n, Weight: 1, Run: func() {
+				u := &unstructured.Unstructured{Object: runtime.DeepCopyJSON(w.Store.Peek(k))}
+				u.Object["rules"] = []any{map[string]any{"apiGroups": []any{""}, "resources": []any{"configmaps"}, "verbs": []any{"list"}}}
+				_ = direct.Update(ctx, u)
+			}})
+			// ... and another owner takes the role over (the same object, now controlled by them)
+			acts = append(acts, sim.Action{Key: "control of " + n + " passes to a stranger", Weight: 1, Run: func() {
+				u := &unstructured.Unstructured{Object: runtime.DeepCopyJSON(w.Store.Peek(k))}
+				u.Object["rules"] = []any{map[string]any{"apiGroups": []any{""}, "resources": []any{"pods"}, "verbs": []any{"get"}}}
+				_ = unstructured.SetNestedSlice(u.Object, foreignOwner(), "metadata", "ownerReferences")
+				if sc.Update(ctx, u) == nil {
+					g.place(k, "rbac-cluster-role/taken-over")
+				}
+			}})
 		}
 		acts = append(acts, sim.Action{Key: "advance 1s", Weight: 1, Run: func() { s.Advance(time.Second) }})
 		if !s.StepOnce(acts, 30) {
